@@ -5,7 +5,13 @@ import brokercheck, brokerlib, monitors, vlib
 
 def run(res):
     brokercheck.run(res, "C20", ["Props/C20.v", "Props/C20_history.v"], monitors.monitor_c20, focus="counts")
+    # the message count of a queue deeper than its in-memory limit, of a purge and after a reload from the store is the
+    # queue component's (C20_queue_length_with_restarts_partial lives there)
+    vlib.also_run(res, "C19", why="queue/queue.go's queueLength across overflow, purge and restart is among C20's anchors")
 
 
 def replay(path):
+    if json.load(open(path)).get("kind") == "queueswap-case":
+        import C19
+        return C19.replay(path)
     return brokercheck.replay(path, monitors.monitor_c20)
